@@ -128,7 +128,8 @@ def gen_scenario(rng, sid, pf):
             if used_names and rng.random() < pf.p_case_variant:
                 # a name that differs from an existing one only in letter case (byte order still separates them)
                 base = rng.choice(sorted(used_names))
-                n = base.upper() if base != base.upper() else base.lower()
+                n = rng.choice([base.upper() if base != base.upper() else base.lower(),
+                                base.strip() + " ", " " + base.strip()])   # letter case, or a blank at an edge
             if n not in used_names:
                 used_names.add(n)
                 return n
@@ -198,6 +199,9 @@ def gen_scenario(rng, sid, pf):
                 p["slice"] = rng.random() < 0.5
             elif kind == "other":
                 p["target"] = ("other",)
+                # a tagged field of a kind the container does not inject: an int, or a fixed-size ARRAY of interfaces /
+                # pointers (arrays are not collections: no candidates, so a required one fails the start cleanly)
+                p["other_go"] = rng.choice(["int", "[2]any", "[1]*wx.Base", "[3]error", "map[string]any", "func()"])
             elif kind == "name":
                 tk = rng.choice(["ptr", "iface", "any"])
                 ci = rng.randrange(len(comps))
@@ -498,7 +502,7 @@ def go_field_type(sid, p, types=None):
         f = types[t[1]]["foreign"]
         return ("[]" if p["slice"] else "") + "*%s.%s" % (f[0], f[2])
     base = {"ptr": lambda: "*" + go_type_name(sid, t[1]), "iface": lambda: "I%d_%d" % (sid, t[1]),
-            "any": lambda: "any", "other": lambda: "int", "app": lambda: "*app.App"}[t[0]]()
+            "any": lambda: "any", "other": lambda: p.get("other_go", "int"), "app": lambda: "*app.App"}[t[0]]()
     return ("[]" if p["slice"] else "") + base
 
 
@@ -687,6 +691,23 @@ def runtime_cfg(scn, facts, lookups="all", shared_names=False):
         rc["initGet"] = [regname_of(scn, k) for k in c.get("initGet", [])]
         comps.append(rc)
     lk = srt if lookups == "all" else [regname_of(scn, ci) for ci in range(len(scn["comps"]))]
+    # names nobody registered are looked up too: other spellings of a registered name (letter case) and a stranger;
+    # in the model they are the ranks past the population (no definition: the lookup fails and leaves nothing behind)
+    rank = dict(rank)
+    lk = list(lk)
+    if lookups == "all" and not shared_names:
+        known = set(rank)
+        extra = []
+        for ci in range(len(scn["comps"])):
+            n = regname_of(scn, ci)
+            for v in (n.swapcase(), n.lower(), n.upper()):
+                if v not in known and v not in extra and len(extra) < 2:
+                    extra.append(v)
+        extra.append("zz-nobody-%d" % scn["id"])
+        for i, v in enumerate(extra):
+            rank[v] = len(srt) + i
+        pos = min(len(lk), 1 + scn["id"] % (len(lk) + 1))
+        lk[pos:pos] = extra
     return {"id": scn["id"], "comps": comps, "regorder": scn["regorder"], "names": rank, "config": config_yaml(scn),
             "loaderFail": scn["loaderFail"], "lookups": lk, "dup": scn.get("dup", []),
             # the factory's registry calls are traced in two scenarios out of three (the third runs without the wrapper)
@@ -903,7 +924,7 @@ def coq_extras(scn, rank):
 
 def coq_case(cid, scn, facts, res, cfg):
     term, rank, srt = coq_scenario(scn, facts)
-    lk = vlib.coq_list(str(rank[n]) for n in cfg["lookups"])
+    lk = vlib.coq_list(str(cfg["names"][n]) for n in cfg["lookups"])     # includes the unregistered names (ranks past the population)
     app_rank = [rank[f["name"]] for f in facts if f["isapp"]][0]
     return "(mkW %d %s %s %s %s)" % (cid, term, lk, coq_obs(res, app_rank), coq_extras(scn, rank))
 
@@ -960,6 +981,17 @@ def _limit_memory():
 
 
 def run_batch(ctx, binp, cfgs, tag, case_timeout="10s"):
+    """one scenario in four runs in a process whose container logger formats every message (as under a debug log level:
+    the library caches its loggers per process, so verbosity is a property of the worker process)"""
+    loud = [c for c in cfgs if c["id"] % 4 == 1]
+    quiet = [c for c in cfgs if c["id"] % 4 != 1]
+    res = _run_batch(ctx, binp, quiet, tag, case_timeout, [])
+    if loud:
+        res.update(_run_batch(ctx, binp, loud, tag + "_v", case_timeout, ["-verbose"]))
+    return res
+
+
+def _run_batch(ctx, binp, cfgs, tag, case_timeout, extra):
     """returns {scenario id: result dict}; crashes and hangs become outcomes of single scenarios"""
     inp = ctx.wpath("scn_%s.json" % tag)
     json.dump({"scenarios": cfgs}, open(inp, "w"))
@@ -967,7 +999,7 @@ def run_batch(ctx, binp, cfgs, tag, case_timeout="10s"):
     start = 0
     restarts = 0
     while start < len(cfgs):
-        p = subprocess.run([binp, "-input", inp, "-from", str(start), "-case-timeout", case_timeout],
+        p = subprocess.run([binp, "-input", inp, "-from", str(start), "-case-timeout", case_timeout] + extra,
                            stdout=subprocess.PIPE, stderr=subprocess.PIPE, timeout=3600, preexec_fn=_limit_memory)
         last_started = None
         done = False
